@@ -147,3 +147,40 @@ def json_escape(fname):
         except BaseException as e:
             return "%s(%s...) raised %s" % (fname, s[:12], type(e).__name__)
     return True
+
+
+def update_reference_in_list_cases():
+    """concrete battery for UpdateReferences.__update_reference_in_list: lists of <=4 elements over {oldref, other line, OrientedLine(oldref),
+    OrientedLine(other)}, removal (newref None) and replacement (newref a line; complement decided by the real __is_replaced_by_complement)"""
+    f = gfapy.Line._UpdateReferences__update_reference_in_list
+    old = gfapy.Line("L\ta\t+\tb\t+\t2M1I")
+    other = gfapy.Line("L\tc\t+\td\t+\t*")
+    owner = gfapy.Line("S\towner\t*")
+    for newkind in ("none", "same", "complement"):
+        new = None if newkind == "none" else (gfapy.Line("L\ta\t+\tb\t+\t2M1I") if newkind == "same" else gfapy.Line("L\tb\t-\ta\t-\t1D2M"))
+        for n in range(0, 5):
+            for combo in itertools.product(range(4), repeat=n):
+                mk = {0: lambda: old, 1: lambda: other, 2: lambda: gfapy.OrientedLine(old, "+"), 3: lambda: gfapy.OrientedLine(other, "-")}
+                lst = [mk[c]() for c in combo]
+                orig = list(lst)
+                try:
+                    f(owner, lst, old, new)
+                except Exception as e:
+                    return "raised %s on %s new=%s" % (type(e).__name__, combo, newkind)
+                if new is None:
+                    want = [x for x, c in zip(orig, combo) if c in (1, 3)]
+                    if len(lst) != len(want) or not all(a is b for a, b in zip(lst, want)):
+                        return "removal from %s leaves %r" % (combo, lst)
+                else:
+                    if len(lst) != len(orig):
+                        return "replacement changed the length of %s" % (combo,)
+                    for x, o, c in zip(lst, orig, combo):
+                        if c == 0 and x is not new:
+                            return "line element not replaced in %s" % (combo,)
+                        if c == 1 and x is not other:
+                            return "other line touched in %s" % (combo,)
+                        if c == 2 and not (x is o and x.line is new and x.orient == ("-" if newkind == "complement" else "+")):
+                            return "oriented reference wrong in %s (%s): %s%s" % (combo, newkind, x.line, x.orient)
+                        if c == 3 and not (x is o and x.line is other and x.orient == "-"):
+                            return "unrelated oriented reference touched in %s" % (combo,)
+    return True
